@@ -10,7 +10,8 @@ From Coq Require Import ZArith QArith List Bool Lia.
 From VL Require Import Prelude.Sx Prelude.PyDict Prelude.GDict Model.GetNBest Model.Divisor Model.HighestAverages
      Model.Convert Model.Condorcet Model.Bucklin
      Proofs.Dict_proofs Proofs.HA_proofs Proofs.Divisor_proofs Proofs.Mono_proofs Proofs.Additive_proofs
-     Proofs.Convert_proofs Proofs.CopelandMono_proofs Proofs.Minimax_proofs Proofs.Condorcet_proofs Proofs.Schulze_proofs Proofs.Bucklin_proofs.
+     Proofs.Convert_proofs Proofs.CopelandMono_proofs Proofs.Minimax_proofs Proofs.Condorcet_proofs Proofs.Schulze_proofs Proofs.Bucklin_proofs
+     Proofs.BucklinShared_proofs.
 Import ListNotations.
 Open Scope Z_scope.
 
@@ -316,13 +317,76 @@ Proof.
   split; [simpl; intros [H|[]]; discriminate|]. split; [discriminate|]. repeat split; vm_compute; reflexivity.
 Qed.
 
-(* what is not proved: the clause for changed ballots that contain shared ranks while shared ranks are split
-   (false of the code as written, above; stated here for the repaired loop, decided per explored case by the check) *)
+(* ---- changed ballots WITH shared ranks under split_equal_rankings, repaired splicing loop (fx = true: the library after
+   5993e70 "offset advanced by len - 1" and db5d821 "adds the split weight to a ballot that already exists"; the check probes
+   which loop the implementation has).  Proofs/BucklinShared_proofs.v.
+   The clause as stated for all inputs: *)
 Definition C17_bucklin_shared_full_statement : Prop :=
   forall pre post (p1 p2 p3 : ranked) (x : Q) (w : C),
   Forall (fun bw => 0 <= snd bw)%Q (pre ++ post) -> (0 <= x)%Q -> ~ In w (flatten p2) ->
   bucklin true (pre ++ (p1 ++ p2 ++ IP w :: p3, x) :: post) 1 = PA_ok [Cand w] ->
   bucklin true (pre ++ (p1 ++ IP w :: p2 ++ p3, x) :: post) 1 = PA_ok [Cand w].
+
+(* the repaired _decouple_equal_rankings is LINEAR in the profile: for EVERY functional f of a ballot the f-weighted sum of
+   the decoupled profile is the sum over the original ballots of the MEAN of f over the variants of the ballot
+   ([spread f b] = f b for a ballot without shared ranks, else the mean over [variants true b]); the variants are the
+   in-place expansions of the shared ranks by their permutations (first shared rank slowest), none has a shared rank and
+   there is at least one.  (False of the loop as written: a variant can keep a shared rank, and the deleted key loses weight.) *)
+Theorem C17_decouple_linear : forall (f : ranked -> Q) (votes : list (ranked * Q)),
+  (rsum f (decouple true votes) == rsum (spread f) votes)%Q /\
+  (forall b, variants true b = svariants b /\ svariants b <> [] /\ forall v, In v (svariants b) -> has_shared v = false) /\
+  (forall k, In k (map fst (decouple true votes)) -> has_shared k = false).
+Proof.
+  intros f votes. split; [apply decouple_linear|]. split; [|apply decouple_plain_keys].
+  intros b. split; [apply variants_svariants|]. split; [apply svariants_nonempty|apply svariants_plain].
+Qed.
+
+(* general form with shared ranks split: one ballot (b, x) is replaced by (b', x) such that, ON AVERAGE OVER THE VARIANTS, b' has
+   at no round given w less and nobody else more.  b and b' arbitrary (shared ranks, truncated, different numbers of variants). *)
+Theorem C17_preference_addition_split_general : forall (coef : nat -> Q) pre post (b b' : ranked) (x : Q) (w : C),
+  Forall (fun bw => 0 <= snd bw)%Q (pre ++ post) -> (0 <= x)%Q ->
+  (forall r, spread (fun v => cumb coef v r w) b <= spread (fun v => cumb coef v r w) b')%Q ->
+  (forall r c, c <> w -> spread (fun v => cumb coef v r c) b' <= spread (fun v => cumb coef v r c) b)%Q ->
+  pa_eval true coef true (pre ++ (b, x) :: post) 1 = PA_ok [Cand w] ->
+  pa_eval true coef true (pre ++ (b', x) :: post) 1 = PA_ok [Cand w].
+Proof. exact pa_mono_replace_split. Qed.
+
+(* the winner (on a rank of its own) moves up past any items - plain or shared ranks - on a ballot that may contain shared
+   ranks anywhere (also further occurrences of w): any non-negative non-increasing coefficients.  The variants of the old and
+   of the new ballot correspond one to one (same permutations of the same shared ranks, same order), each pair related by the
+   upward move of w on a strict ranking. *)
+Theorem C17_preference_addition_shared : forall (coef : nat -> Q) pre post (p1 p2 p3 : ranked) (x : Q) (w : C),
+  (forall i, 0 <= coef i)%Q -> (forall i, coef (S i) <= coef i)%Q ->
+  Forall (fun bw => 0 <= snd bw)%Q (pre ++ post) -> (0 <= x)%Q -> ~ In w (flatten p2) ->
+  pa_eval true coef true (pre ++ (p1 ++ p2 ++ IP w :: p3, x) :: post) 1 = PA_ok [Cand w] ->
+  pa_eval true coef true (pre ++ (p1 ++ IP w :: p2 ++ p3, x) :: post) 1 = PA_ok [Cand w].
+Proof. exact pa_move_up_shared. Qed.
+
+(* the clause itself: Bucklin, and the Oklahoma preset *)
+Theorem C17_bucklin_shared : C17_bucklin_shared_full_statement.
+Proof.
+  intros pre post p1 p2 p3 x w. destruct bucklin_coef_good as [H1 H2].
+  exact (pa_move_up_shared bucklin_coef pre post p1 p2 p3 x w H1 H2).
+Qed.
+
+Theorem C17_oklahoma_shared : forall pre post (p1 p2 p3 : ranked) (x : Q) (w : C),
+  Forall (fun bw => 0 <= snd bw)%Q (pre ++ post) -> (0 <= x)%Q -> ~ In w (flatten p2) ->
+  oklahoma true (pre ++ (p1 ++ p2 ++ IP w :: p3, x) :: post) 1 = PA_ok [Cand w] ->
+  oklahoma true (pre ++ (p1 ++ IP w :: p2 ++ p3, x) :: post) 1 = PA_ok [Cand w].
+Proof.
+  intros pre post p1 p2 p3 x w. destruct oklahoma_coef_good as [H1 H2].
+  exact (pa_move_up_shared oklahoma_coef pre post p1 p2 p3 x w H1 H2).
+Qed.
+
+(* non-vacuity: {({A,B},{C,D},E,W): 2, (C,W): 3, (W): 1} (A..E = 1..5, W = 6): the first ballot has 4 variants of weight 1/2 each;
+   Bucklin elects W in both profiles (without that ballot C would win) *)
+Example C17_bucklin_shared_example :
+  let post := [([IP 3; IP 6]%positive, 3%Q); ([IP 6%positive], 1%Q)] in
+  bucklin true post 1 = PA_ok [Cand 3%positive] /\
+  length (variants true [IS [1; 2]; IS [3; 4]; IP 5; IP 6]%positive) = 4%nat /\
+  bucklin true ([] ++ ([IS [1; 2]%positive] ++ [IS [3; 4]%positive; IP 5%positive] ++ IP 6%positive :: [], 2%Q) :: post) 1 = PA_ok [Cand 6%positive] /\
+  bucklin true ([] ++ ([IS [1; 2]%positive] ++ IP 6%positive :: [IS [3; 4]%positive; IP 5%positive] ++ [], 2%Q) :: post) 1 = PA_ok [Cand 6%positive].
+Proof. vm_compute. repeat split; reflexivity. Qed.
 
 (* non-vacuity: a profile with a truncated ballot and a split shared rank: {(D,A): 3, (B,C,A): 2, ({B,C},D): 1};
    Bucklin elects A in the third round (5 against D's 4, quota 3); after A has moved up to (B,A,C) already in the second.
@@ -369,3 +433,8 @@ Print Assumptions C17_bucklin_added.
 Print Assumptions C17_oklahoma_added.
 Print Assumptions C17_bucklin_added_full_refuted.
 Print Assumptions C17_bucklin_shared_refuted.
+Print Assumptions C17_decouple_linear.
+Print Assumptions C17_preference_addition_split_general.
+Print Assumptions C17_preference_addition_shared.
+Print Assumptions C17_bucklin_shared.
+Print Assumptions C17_oklahoma_shared.
